@@ -1199,7 +1199,7 @@ Qed.
     is produced for every input whose fractions all have a sheet: no dictionary lookup fails and no row
     lies beyond the rows appended to its sheet, however many assets share it. *)
 Theorem tax_report_total i acs : computed_all i (rp_assets i) = Ok acs ->
-  (exists m, legend_method (rp_sched i) = Ok m) ->
+  (exists m, legend_method (tt_legend_single_by_value T) (rp_sched i) = Ok m) ->
   (forall ac, In ac acs -> exists items, mk_items T (asset_sources i ac) = Ok items) ->
   (forall ac g, In ac acs -> In g (cd_gls (snd ac)) -> type_to_sheet T (t_type (g_ev g)) <> None) ->
   exists out, tax_report T i = Ok out.
@@ -1326,7 +1326,7 @@ End WithinCapacity.
 
 Lemma report_produced_of_total T : tables_ok T = true -> append_ok T -> routing_total T = true -> forall i acs,
   computed_all i (rp_assets i) = Ok acs ->
-  (exists m, legend_method (rp_sched i) = Ok m) ->
+  (exists m, legend_method (tt_legend_single_by_value T) (rp_sched i) = Ok m) ->
   (forall ac, In ac acs -> exists items, mk_items T (asset_sources i ac) = Ok items) ->
   (forall ac g, In ac acs -> In g (cd_gls (snd ac)) -> In (t_type (g_ev g)) taxable_types) ->
   exists out, tax_report T i = Ok out.
@@ -1336,7 +1336,7 @@ Proof.
 Qed.
 Lemma us_report_produced : forall i acs,
   computed_all i (rp_assets i) = Ok acs ->
-  (exists m, legend_method (rp_sched i) = Ok m) ->
+  (exists m, legend_method (tt_legend_single_by_value tax_tables_us) (rp_sched i) = Ok m) ->
   (forall ac, In ac acs -> exists items, mk_items tax_tables_us (asset_sources i ac) = Ok items) ->
   (forall ac g, In ac acs -> In g (cd_gls (snd ac)) -> In (t_type (g_ev g)) taxable_types) ->
   exists out, tax_report tax_tables_us i = Ok out.
@@ -1373,7 +1373,8 @@ Definition us_without_lost : trtables :=
      tt_header_rows := tt_header_rows U; tt_min_rows := tt_min_rows U; tt_first_row := tt_first_row U; tt_empty_mark := tt_empty_mark U;
      tt_row_step := tt_row_step U; tt_append_rows := tt_append_rows U; tt_cols_always := tt_cols_always U; tt_cols_lot := tt_cols_lot U;
      tt_cols_nolot := tt_cols_nolot U; tt_datefmt := tt_datefmt U; tt_template_name := tt_template_name U; tt_output_file := tt_output_file U;
-     tt_template := tt_template U; tt_legend_method_row := tt_legend_method_row U |}.
+     tt_template := tt_template U; tt_legend_method_row := tt_legend_method_row U;
+     tt_legend_single_by_value := tt_legend_single_by_value U |}.
 
 Example missing_type_nonvacuous : exists i acs,
   rd_rinput f4_code = Some (Ok i, []) /\ computed_all i (rp_assets i) = Ok acs
@@ -1396,7 +1397,7 @@ Lemma ie_routing_documented : routing_as_documented tax_tables_ie.
 Proof. vm_compute. repeat split. Qed.
 Lemma ie_report_produced : forall i acs,
   computed_all i (rp_assets i) = Ok acs ->
-  (exists m, legend_method (rp_sched i) = Ok m) ->
+  (exists m, legend_method (tt_legend_single_by_value tax_tables_ie) (rp_sched i) = Ok m) ->
   (forall ac, In ac acs -> exists items, mk_items tax_tables_ie (asset_sources i ac) = Ok items) ->
   (forall ac g, In ac acs -> In g (cd_gls (snd ac)) -> In (t_type (g_ev g)) taxable_types) ->
   exists out, tax_report tax_tables_ie i = Ok out.
